@@ -1009,3 +1009,168 @@ func c14_8(c *core.Ctx, p *core.Prog) {
 		})
 	}
 }
+
+// c07_16: an entry of the stream-consumer map is retired only by what replaces
+// it.  The producer omits the payload of a related table that is empty for a
+// batch but keeps its IPC writer; when rows come back they arrive under the
+// same schema id without a schema message.  A consumer that drops the entry
+// (and reader) of a stream merely because one batch did not mention it fails
+// on that payload ("invalid message type … want=Schema") and on every later
+// one of the sub-stream.  Rule: every delete() on the map of stream consumers
+// is in Close, or lies under (a) the miss of a lookup in that map — a schema
+// id that is not registered yet is being installed — and (b) the equality test
+// of the entry's payload type with the incoming payload's.
+func c07_16(c *core.Ctx, p *core.Prog) {
+	pk := p.Pkg(pkgArrowRecord)
+	if pk == nil {
+		c.Undecided("pkg", "?", "", "arrow_record not loaded")
+		return
+	}
+	tn, _ := pk.Types.Scope().Lookup("streamConsumer").(*types.TypeName)
+	if tn == nil {
+		c.Undecided("type", "?", "", "streamConsumer not found")
+		return
+	}
+	isSCMap := func(v ssa.Value) *types.Var {
+		fa := core.LoadedField(core.Canon(v))
+		if fa == nil {
+			return nil
+		}
+		m, ok := core.FieldVar(fa).Type().Underlying().(*types.Map)
+		if !ok || core.NamedOf(m.Elem()) == nil || core.NamedOf(m.Elem()).Obj() != tn {
+			return nil
+		}
+		return core.FieldVar(fa)
+	}
+	n := 0
+	for _, fn := range arrowRecordFuncs(p) {
+		core.EachInstr(fn, func(i ssa.Instruction) {
+			d, ok := i.(*ssa.Call)
+			if !ok {
+				return
+			}
+			b, ok := d.Call.Value.(*ssa.Builtin)
+			if !ok || b.Name() != "delete" || len(d.Call.Args) != 2 {
+				return
+			}
+			mf := isSCMap(d.Call.Args[0])
+			if mf == nil {
+				return
+			}
+			n++
+			key := fmt.Sprintf("delete#%d@%s", n, core.FuncName(fn))
+			if fn.Name() == "Close" {
+				c.OK(key, p.Pos(d.Pos()), core.FuncName(fn), "entries are dropped when the consumer is closed")
+				return
+			}
+			onMiss, onType := false, false
+			for _, blk := range fn.Blocks {
+				iff := core.IfOf(blk)
+				if iff == nil {
+					continue
+				}
+				cmp, ok := iff.Cond.(*ssa.BinOp)
+				if !ok || (cmp.Op != token.EQL && cmp.Op != token.NEQ) || !core.GuardedBy(iff, cmp.Op == token.EQL, d) {
+					continue
+				}
+				// (a) lookup in the same map == nil   (or the comma-ok form, handled below)
+				if core.IsNilConst(cmp.Y) || core.IsNilConst(cmp.X) {
+					x := cmp.X
+					if core.IsNilConst(x) {
+						x = cmp.Y
+					}
+					if lk, ok := core.Canon(x).(*ssa.Lookup); ok && isSCMap(lk.X) == mf {
+						onMiss = true
+					}
+				}
+				// (b) entry.payloadType == payload.Type
+				fx, fy := core.LoadedField(core.Canon(cmp.X)), core.LoadedField(core.Canon(cmp.Y))
+				if fx != nil && fy != nil {
+					ox, oy := core.NamedOf(fx.X.Type()), core.NamedOf(fy.X.Type())
+					if (ox != nil && ox.Obj() == tn) != (oy != nil && oy.Obj() == tn) && types.Identical(core.FieldVar(fx).Type(), core.FieldVar(fy).Type()) {
+						onType = true
+					}
+				}
+			}
+			// comma-ok miss: if !ok { … }
+			for _, blk := range fn.Blocks {
+				iff := core.IfOf(blk)
+				if iff == nil {
+					continue
+				}
+				cond, arm := iff.Cond, true
+				if u, ok := cond.(*ssa.UnOp); ok && u.Op == token.NOT {
+					cond, arm = u.X, false
+				}
+				if ex, ok := cond.(*ssa.Extract); ok && ex.Index == 1 {
+					if lk, ok := ex.Tuple.(*ssa.Lookup); ok && isSCMap(lk.X) == mf && core.GuardedBy(iff, !arm, d) {
+						onMiss = true
+					}
+				}
+			}
+			var msgs []string
+			if !onMiss {
+				msgs = append(msgs, "not under the miss of a lookup of the incoming schema id (no new stream is being installed)")
+			}
+			if !onType {
+				msgs = append(msgs, "not under the test that the entry has the incoming payload's type")
+			}
+			// the entry's reader is released before the entry is forgotten, whatever state the reader is in:
+			// the only way round the release is the "no reader yet" edge of a nil test
+			var rdF *types.Var
+			st := tn.Type().Underlying().(*types.Struct)
+			for k := 0; k < st.NumFields(); k++ {
+				if core.TypePkgPath(st.Field(k).Type()) == arrowIPC {
+					rdF = st.Field(k)
+				}
+			}
+			if rdF != nil {
+				isRelease := func(j ssa.Instruction) bool {
+					cl, ok := j.(*ssa.Call)
+					if !ok {
+						return false
+					}
+					if core.IsMethodOf(core.CalleeObj(cl), arrowIPC, "Reader", "Release") && isFieldLoad(cl.Call.Args[0], rdF) {
+						return true
+					}
+					// a helper of the stream consumer that releases its reader
+					h := cl.Call.StaticCallee()
+					if h == nil || h.Blocks == nil || h.Signature.Recv() == nil || core.NamedOf(h.Signature.Recv().Type()) == nil || core.NamedOf(h.Signature.Recv().Type()).Obj() != tn {
+						return false
+					}
+					rel := false
+					core.EachInstr(h, func(x ssa.Instruction) {
+						if c2, ok := x.(*ssa.Call); ok && core.IsMethodOf(core.CalleeObj(c2), arrowIPC, "Reader", "Release") && isFieldLoad(c2.Call.Args[0], rdF) {
+							rel = true
+						}
+					})
+					return rel
+				}
+				cut := map[core.Edge]bool{}
+				for _, blk := range fn.Blocks {
+					iff := core.IfOf(blk)
+					if iff == nil {
+						continue
+					}
+					if cmp, ok := iff.Cond.(*ssa.BinOp); ok && (cmp.Op == token.NEQ || cmp.Op == token.EQL) && core.IsNilConst(cmp.Y) && isFieldLoad(cmp.X, rdF) {
+						nilIdx := 1 // `rd != nil`: the false edge is the nil edge
+						if cmp.Op == token.EQL {
+							nilIdx = 0
+						}
+						cut[core.Edge{From: blk, To: blk.Succs[nilIdx]}] = true
+					}
+				}
+				leak, _ := (core.PathQuery{Fn: fn, To: d, Avoid: isRelease, CutEdges: cut}).Exists()
+				c.Check(!leak, key+"|released", p.Pos(d.Pos()), core.FuncName(fn), "the entry's reader is released before the entry is forgotten (unless there is none yet)",
+					"an entry can be dropped from the map while its reader — in whatever state, a reader that failed still owns its dictionaries and last record — is not released: Close can no longer reach it, and the memory keeps counting against the limit, so decodable batches are refused")
+			}
+			c.Check(len(msgs) == 0, key, p.Pos(d.Pos()), core.FuncName(fn), "an entry is retired only by a new schema id of its own payload type",
+				"a registered stream is dropped "+strings.Join(msgs, " and ")+": a sub-stream the batch merely did not mention (an empty related table is omitted by the producer) loses its reader, and its next payload — which carries no schema message — is refused together with every later one")
+		})
+	}
+}
+
+func init() {
+	register("C07", &core.Rule{ID: "C07.16", Title: "a registered stream is retired only by a new schema id of its own payload type (or Close)", Mod: core.ModRoot, Floor: 1, Run: c07_16})
+	register("C14", &core.Rule{ID: "C14.13", Title: "a registered stream is retired only by a new schema id of its own payload type (or Close)", Mod: core.ModRoot, Floor: 1, Run: c07_16})
+}
